@@ -250,6 +250,8 @@ def check(ck):
     okk = len(uap) == 1 and len(uap[0][1].args) == 2 and prov.origin(gsc, uap[0][0], uap[0][1].args[1]) == ("attr", ("param", "self"), "user_agent")
     ck.require(okk, "C18.4", "%s: fallback header value" % q.fn(fsc), "putheader('User-Agent', self.user_agent)",
                "the fallback User-Agent header does not carry self.user_agent", q.loc(fsc, fsc.node))
+    from rules import common as _cm18
+    _cm18.check_no_shared_mutable(ck, "C18.5", modules=("jsonrpc",))
     # ---- C18.5 stack discipline ------------------------------------------------------------------------------
     fpush = prog.func("jsonrpc", "TransportMixIn.push_headers")
     fpop = prog.func("jsonrpc", "TransportMixIn.pop_headers")
